@@ -1,6 +1,8 @@
 """C19: KSY export describes the same byte layout the construct parses."""
 import io
+import json
 from . import common as C
+import reify as R
 import gen as G
 import harness as H
 import ksy as K
@@ -25,6 +27,50 @@ def declared_names(c):
         inner = inner.subcon
     if type(inner) is core.Struct:
         return [sc.name for sc in inner.subcons]
+    return None
+
+
+def _type_bits(t, types):
+    import re as _re
+    if _re.match(r'b\d+$', t):
+        return int(t[1:])
+    m = _re.match(r'[usf](\d)(be|le)?$', t)
+    if m:
+        return 8 * int(m.group(1))
+    if t in types:
+        return sum(_field_bits(f, types) for f in types[t]['seq'])
+    raise R.Unsupported('type %s' % t)
+
+
+def _field_bits(f, types):
+    if 'size' in f or 'type' not in f:
+        raise R.Unsupported('sized field')
+    n = _type_bits(f['type'], types)
+    if f.get('repeat') == 'expr':
+        n *= int(f['repeat-expr'])
+    elif 'repeat' in f:
+        raise R.Unsupported('repeat')
+    return n
+
+
+@C.oracle('ksy_bit_widths')
+def o_bit_widths(src):
+    """a bit region of fixed size: the widths of the types the schema gives its fields (helper types and repetitions included) add up to the
+    number of bits the construct reads for that region"""
+    c, schema, why = exported(src)
+    if schema is None:
+        return 'export_ksy fails (%s)' % why
+    inner = c
+    while isinstance(inner, core.Renamed):
+        inner = inner.subcon
+    for sc, fld in zip(inner.subcons, schema['seq']):
+        try:
+            want = 8 * sc.sizeof()
+            got = _field_bits(fld, schema.get('types', {}))
+        except (R.Unsupported, core.SizeofError):
+            continue
+        if got != want:
+            return 'member %r reads %d bits; the types of the schema add up to %d: %s' % (fld.get('id'), want, got, json.dumps(schema.get('types', {}), default=str)[:400])
     return None
 
 
@@ -310,6 +356,10 @@ def run(tier, seed):
     quick = tier == 'quick'
     nexp = nrej = 0
     cases = [dict(src=src, op='ksy_emit') for src in NOT_EXPORTABLE + EMIT_ONLY]
+    for src in EMIT_ONLY + FIXED:
+        if '"c"/Byte), "t"/Byte)' in src:
+            continue          # a byte-level FormatField directly in a bit region reads ONE unit of the bit stream, not 8: not a well-formed region (0.8)
+        acc.check('ksy_bit_widths', src)
     for i, src in enumerate(FIXED):
         c, schema, why = exported(src)
         cases.append(dict(src=src, op='ksy_emit'))          # the model exports every one of these: a refusal or a crash of export_ksy disagrees with it
